@@ -172,8 +172,8 @@ def adjust_key_parity_contract(variant='call'):
 def parity_lemma_contract():
     ones = ' + '.join('result // %d %% 2' % (2 ** i) for i in range(8))
     return Contract('spec.modes.lemma_parity', params={'b': 'int[0..255]'}, raises={},
-                    ensures={'arith': 'result == spec.modes.odd_parity(b)',          # the declarative (arithmetic) definition
-                             'key_bits': 'result // 2 == b // 2 and 0 <= result and result <= 255',      # FIPS 46-3: bits 7..1 are the key material
+                    lemmas={'exit': {'arith': 'result == spec.modes.odd_parity(b)'}},    # the declarative (arithmetic) definition, proved first
+                    ensures={'key_bits': 'result // 2 == b // 2 and 0 <= result and result <= 255',      # FIPS 46-3: bits 7..1 are the key material
                              'odd': '(%s) %% 2 == 1' % ones},                         # ... and the byte has an odd number of ones
                     modifies=[], bv_width=8)
 
